@@ -788,6 +788,9 @@ class VBSClusteringManager:
             # Extract radius from circular bounding box if present
             bbox = vci.get("clusterBoundingBoxShape")
             radius: Optional[float] = None
+            # The UPER decoder yields a CHOICE as a (name, value) tuple.
+            if isinstance(bbox, tuple) and len(bbox) == 2:
+                bbox = {bbox[0]: bbox[1]}
             if bbox and "circular" in bbox:
                 radius = float(bbox["circular"].get("radius", vam_constants.MAX_CLUSTER_DISTANCE))
 
